@@ -17,6 +17,7 @@
 #define VF_INPUTS(X) VF_TREE_INPUTS(X) X(unsigned char, recurse, ) X(unsigned char, fail_at, ) X(unsigned char, shape, )
 #define VF_MAXSZ 7
 #include "vf.h"
+#include "vf_str.h"
 #include "vf_tree.h"
 #include "vf_mem.h"
 #define malloc vf_malloc
